@@ -104,7 +104,8 @@ class DBusClientConnection (txdbus.protocol.BasicDBusProtocol):
                 factory._failed(reason)
             return
 
-        for cb in self._dcCallbacks:
+        # a callback may cancel itself (or another one) while it runs
+        for cb in list(self._dcCallbacks):
             cb(self, reason)
 
         # an errback may issue further calls on this connection (a retry):
